@@ -22,6 +22,13 @@ func eqLines(a, b []string) bool {
 	return true
 }
 
+func shortLines(ls []string) string {
+	if len(ls) > 12 {
+		return fmt.Sprintf("[%d entries, the last %q]", len(ls), ls[len(ls)-3:])
+	}
+	return fmt.Sprintf("%q", ls)
+}
+
 func init() {
 	accepts := []struct {
 		name, keys string
@@ -44,6 +51,17 @@ func init() {
 					ls = append(ls, histPool[r.Intn(len(histPool))])
 				}
 				sp.Sources = append(sp.Sources, Src{Name: fmt.Sprintf("src%d", i), Lines: ls})
+			}
+			// a long history (around the sizes where a default limit is likely to sit): unlimited unless history-size says so
+			long := ""
+			if r.Intn(10) == 0 {
+				k := []int{499, 500, 501, 512, 1000, 1024, 2000}[r.Intn(7)]
+				var ls []string
+				for j := 0; j < k; j++ {
+					ls = append(ls, fmt.Sprintf("cmd %d", j))
+				}
+				sp.Sources[r.Intn(nsrc)].Lines = ls
+				long = "/long-history"
 			}
 			size := ""
 			switch r.Intn(5) {
@@ -104,7 +122,7 @@ func init() {
 			if multi {
 				cl += "+multiline"
 			}
-			return Case{Specs: []Spec{sp}, Class: fmt.Sprintf("%s/sources=%d/size=%s", cl, nsrc, size),
+			return Case{Specs: []Spec{sp}, Class: fmt.Sprintf("%s/sources=%d/size=%s%s", cl, nsrc, size, long),
 				Meta: map[string]string{"typed": typed, "accept": acc.name, "ordinary": ord, "size": size}}
 		},
 		oracle: func(c Case, trs []Trace) []Finding {
@@ -125,7 +143,7 @@ func init() {
 			line := res.Line
 			for i, src := range c.Specs[0].Sources {
 				before, after := src.Lines, tr.Sources[0][i]
-				ctx := fmt.Sprintf("%s of %q (err=%q), source %d of %d holding %q, history-size %q: now %q", c.Meta["accept"], line, res.Err, i, len(c.Specs[0].Sources), before, c.Meta["size"], after)
+				ctx := fmt.Sprintf("%s of %q (err=%q), source %d of %d holding %s, history-size %q: now %s", c.Meta["accept"], line, res.Err, i, len(c.Specs[0].Sources), shortLines(before), c.Meta["size"], shortLines(after))
 				should := res.Err == "" && c.Meta["ordinary"] == "1" && strings.TrimSpace(line) != "" &&
 					(len(before) == 0 || strings.TrimSpace(before[len(before)-1]) != strings.TrimSpace(line))
 				appended := len(after) == len(before)+1 && eqLines(after[:len(before)], before) && strings.TrimSpace(after[len(before)]) == strings.TrimSpace(line)
@@ -140,6 +158,9 @@ func init() {
 						}
 						if len(c.Specs[0].Sources) > 1 {
 							sig += "/multi-source"
+						}
+						if len(before) > 100 {
+							sig += "/long-history"
 						}
 						fs = append(fs, Finding{"C08", sig, ctx, c})
 					}
